@@ -22,6 +22,11 @@ pub struct Case {
     /// client binds inline afterwards must still arrive exactly.
     #[serde(default)]
     pub pre: Vec<Option<Pre>>,
+    /// per execution: one parameter whose value is streamed with COM_STMT_SEND_LONG_DATA in the
+    /// given chunks (possibly all empty) instead of being sent inline; the other parameters of that
+    /// execution must still arrive exactly
+    #[serde(default)]
+    pub streamed: Vec<Option<(u16, Vec<Vec<u8>>)>>,
 }
 
 #[derive(Clone, Debug, Serialize, Deserialize)]
@@ -36,7 +41,7 @@ impl Prop for C08 {
         "C08"
     }
     fn rule(&self) -> String {
-        "cases = one prepared statement declaring 0-600 parameters (counts biased to 0, 1, 7, 8, 9, 15-17, 63-65, 255-257, 600) executed 1-3 times with the new-params-bound flag set (later executions either bind fresh types or keep the type codes and flip some signedness flags); per parameter a bound type from every code the protocol defines a binary encoding for (27 codes) x unsigned flag; integer bit patterns over full widths, all float bit patterns incl. infinities, byte strings across the length-encoding classes, every legal length form of DATE (0/4), DATETIME/TIMESTAMP (0/4/7/11) and TIME (0/8/12, incl. negative), MYSQL_TYPE_NULL, arbitrary NULL-bitmap patterns. One case in five has the shim answer a further PREPARE with the same id and parameter count before some executions (after a COM_STMT_CLOSE or with the id still open, and possibly after long data that the client streamed but never executed): the inline values bound afterwards must arrive all the same. Oracle: the shim's list has the declared length and per entry the bound type code, the exact ValueInner, and - where the Rust target type can represent the value (not the zero date, not negative TIME, not NaN) - the conversion result equals the encoded value. Non-trivial = >= 9 parameters (second bitmap byte) or an unsigned / narrow / temporal type.".into()
+        "cases = one prepared statement declaring 0-600 parameters (counts biased to 0, 1, 7, 8, 9, 15-17, 63-65, 255-257, 600) executed 1-3 times with the new-params-bound flag set (later executions either bind fresh types or keep the type codes and flip some signedness flags); per parameter a bound type from every code the protocol defines a binary encoding for (27 codes) x unsigned flag; integer bit patterns over full widths, all float bit patterns incl. infinities, byte strings across the length-encoding classes, every legal length form of DATE (0/4), DATETIME/TIMESTAMP (0/4/7/11) and TIME (0/8/12, incl. negative), MYSQL_TYPE_NULL, arbitrary NULL-bitmap patterns. One case in five has the shim answer a further PREPARE with the same id and parameter count before some executions (after a COM_STMT_CLOSE or with the id still open, and possibly after long data that the client streamed but never executed): the inline values bound afterwards must arrive all the same. One case in five streams one parameter of an execution as long data (1-3 chunks, possibly all empty), which must not disturb the inline values of the others. Oracle: the shim's list has the declared length and per entry the bound type code, the exact ValueInner, and - where the Rust target type can represent the value (not the zero date, not negative TIME, not NaN) - the conversion result equals the encoded value. Non-trivial = >= 9 parameters (second bitmap byte) or an unsigned / narrow / temporal type.".into()
     }
     fn assumptions(&self) -> Vec<String> {
         vec!["the recording shim iterates all parameters, as every caller in the repository does".into()]
@@ -90,7 +95,21 @@ impl Prop for C08 {
         } else {
             vec![]
         };
-        Case { id: if g.chance(1, 5) { g.raw() } else { 1 }, execs, pre }
+        let streamed = if n > 0 && n <= 100 && g.chance(1, 5) {
+            (0..nexec)
+                .map(|_| {
+                    if g.coin() {
+                        let chunks = (0..g.usize_in(1, 3)).map(|_| if g.chance(1, 3) { vec![] } else { let k = g.usize_in(0, 6); g.bytes(k) }).collect();
+                        Some((g.below(n as u64) as u16, chunks))
+                    } else {
+                        None
+                    }
+                })
+                .collect()
+        } else {
+            vec![]
+        };
+        Case { id: if g.chance(1, 5) { g.raw() } else { 1 }, execs, pre, streamed }
     }
     fn fixed(&self, tier: Tier) -> Vec<Case> {
         // an inline byte-string parameter that makes the COM_STMT_EXECUTE a multi-fragment request,
@@ -110,6 +129,7 @@ impl Prop for C08 {
                     Param { coltype: T_VAR_STRING, unsigned: false, value: PVal::Bytes(b"after the big one".to_vec()) },
                 ]],
                 pre: vec![],
+                streamed: vec![],
             });
         }
         v
@@ -133,6 +153,23 @@ impl Prop for C08 {
                 }
                 cmds.push(Cmd::Prepare { text: Blob::text("p") });
                 actions.push(prep());
+            }
+            let mut e = e.clone();
+            if let Some(Some((p, chunks))) = case.streamed.get(k) {
+                let p = *p as usize;
+                if p < e.len() && !matches!(e[p].value, PVal::Null) {
+                    ex.class("one-parameter-streamed-as-long-data");
+                    if chunks.iter().all(|c| c.is_empty()) {
+                        ex.class("parameter-streamed-as-empty-long-data");
+                        ex.nontrivial = true;
+                    }
+                    for c in chunks {
+                        cmds.push(Cmd::LongData { id: case.id, param: p as u16, data: Blob::Lit(c.clone()) });
+                    }
+                    // (a client streams BLOB/TEXT parameters: bound as such)
+                    e[p].coltype = T_BLOB;
+                    e[p].value = PVal::LongData;
+                }
             }
             cmds.push(Cmd::Execute { id: case.id, params: e.clone(), send_types: true, flags: 0, iterations: 1 });
             actions.push(Action::Result(Program::completed(0, 0)));
@@ -182,7 +219,17 @@ impl Prop for C08 {
                 if *id != case.id {
                     ex.fail("c08-id", format!("execution {} reached the shim with id {}, client sent {}", k, id, case.id));
                 }
-                let want: Vec<_> = sent.iter().map(|p| expected_seen(p, None)).collect();
+                let want: Vec<_> = sent
+                    .iter()
+                    .enumerate()
+                    .map(|(i, p)| match case.streamed.get(k) {
+                        Some(Some((sp, chunks))) if *sp as usize == i && !matches!(p.value, PVal::Null) => {
+                            let data: Vec<u8> = chunks.concat();
+                            expected_seen(&Param { coltype: T_BLOB, unsigned: p.unsigned, value: PVal::LongData }, Some(&data))
+                        }
+                        _ => expected_seen(p, None),
+                    })
+                    .collect();
                 if let Err(m) = compare_seen(params, &want, true) {
                     let key = if m.contains("conversion") { "c08-conversion" } else { "c08-param-differs" };
                     // conversion panics carry their site in the text
